@@ -292,7 +292,7 @@ class BulkOperationBuilder(object):
             return {'nInserted': 1}
         self.executors.append(exec_insert)
 
-    def __aggregate_operation_result(self, total_result, key, value):
+    def __aggregate_operation_result(self, total_result, key, value, index):
         agg_val = total_result.get(key)
         assert agg_val is not None, 'Unknow operation result %s=%s' \
                                     ' (unrecognized key)' % (key, value)
@@ -300,7 +300,7 @@ class BulkOperationBuilder(object):
             total_result[key] += value
         elif isinstance(agg_val, list):
             if key == 'upserted':
-                new_element = {'index': len(agg_val), '_id': value}
+                new_element = {'index': index, '_id': value}
                 agg_val.append(new_element)
             else:
                 agg_val.append(value)
@@ -339,7 +339,7 @@ class BulkOperationBuilder(object):
                     break
                 continue
             for (key, value) in op_result.items():
-                self.__aggregate_operation_result(result, key, value)
+                self.__aggregate_operation_result(result, key, value, index)
             if exec_name == 'exec_update':
                 has_update = True
                 if 'nModified' not in op_result:
